@@ -4,6 +4,7 @@ import io
 import os
 import pickle
 import re
+import struct
 import subprocess
 import sys
 import zipfile
@@ -71,7 +72,14 @@ DANGEROUS_GLOBS = (
     ("astunparse.printer", "Printer"), ("unittest.mock", "patch"), ("lib2to3.pgen2.driver", "load_grammar"),
     # already-loaded sentinel modules (stdlib-named and not): any attribute resolution is recorded
     ("antigravity", "geohash"), ("nntplib", "NNTP"), ("verif_loaded", "thing"), ("telnetlib", "Telnet"),
+    # names that are templates for str.format / %-formatting: nothing may be resolved through them
+    ("os.{module.__class__.__mro__}", "system"), ("os.{0.__class__.__mro__}", "x"),
+    ("torch.{shortened.__class__.__mro__}", "load"), ("os.{self.__class__.__mro__}", "eval"),
+    ("subprocess.{node.__class__.__mro__}", "Popen"), ("os.{module_name.__class__.__mro__}", "system"),
+    ("os.%(module)r", "system"),
 )  # fmt: skip
+# the repr of an object that only exists inside the analysing process has no business in a report
+REPR_MARKERS = ("<class '", "<built-in ", "<function ", "<module '", " object at 0x", "<method-wrapper", "<slot wrapper")
 SENTINELS = ("antigravity", "nntplib", "verif_loaded", "telnetlib")
 FORBIDDEN = ("exec", "compile", "pickle.find_class", "marshal.loads", "os.system", "os.exec",
              "os.posix_spawn", "os.fork", "os.forkpty", "os.spawn", "subprocess.Popen", "socket.",
@@ -124,6 +132,24 @@ def entry_points(data, path, scratch, zpath=None):
 
     def parse_stream():
         Pickled.load(io.BytesIO(data))
+
+    def parse_nonseekable():
+        # a pipe / socket: read-only, no seek, no tell
+        class Pipe(io.RawIOBase):
+            def __init__(self, b):
+                self._b = io.BytesIO(b)
+
+            def readable(self):
+                return True
+
+            def seekable(self):
+                return False
+
+            def readinto(self, buf):
+                return self._b.readinto(buf)
+
+        Pickled.load(io.BufferedReader(Pipe(data)))
+        StackedPickle.load(io.BufferedReader(Pipe(data)))
 
     def stacked():
         state["sp"] = StackedPickle.load(data)
@@ -193,6 +219,7 @@ def entry_points(data, path, scratch, zpath=None):
         extra.append(("PyTorchModelWrapper.pickled", torch_wrapper))
     return extra + [
         ("Pickled.load", parse), ("Pickled.load(stream)", parse_stream),
+        ("load(non-seekable stream)", parse_nonseekable),
         ("StackedPickle.load", stacked), ("ast", decompile), ("ast.unparse", unparse),
         ("astunparse", unparse_legacy), ("Trace.run", trace), ("check_safety", safety),
         ("summaries", summaries), ("is_likely_safe", likely_safe), ("cli", cli_decompile),
@@ -244,6 +271,19 @@ def observe(data, scratch, warm=False):
                 if isinstance(e, KeyboardInterrupt):
                     raise
         evs = list(events)
+        shown = sink.getvalue()
+        if name.startswith("cli --check-safety --print-results"):
+            try:
+                with open(os.path.join(scratch.path, "report.json"), errors="replace") as fh:
+                    shown += fh.read()
+            except OSError:
+                pass
+        leaked = [m for m in REPR_MARKERS if m in shown and m.encode() not in data]
+        if leaked and not warm:
+            i = shown.index(leaked[0])
+            msg = (f"{name}: the output shows the repr of an object of the analysing process "
+                   f"({shown[max(0, i - 60): i + 60]!r}): an attribute path named by the input was resolved")
+            break
         if sandbox.RESOLVED:
             msg = f"{name}: attribute(s) {sandbox.RESOLVED[:3]} named by the input were resolved on a loaded module"
             break
@@ -406,6 +446,19 @@ def judge_archive(kind, members, scratch):
     return None
 
 
+def _big(n, payload, where):
+    blob = b"B" + struct.pack("<I", n) + b"x" * n + b"0"
+    return blob + payload if where == "before" else payload[:-1] + b"0" + blob + b"N."
+
+
+BIG_INPUTS = (
+    _big(1_300_000, b"cos\nsystem\n(S'touch VERIF_PWNED'\ntR.", "before"),
+    _big(1_300_000, b"cverif_canary\nfire\n(S'x'\ntR.", "after"),
+    _big(9_000_000, b"cbuiltins\neval\n(S'1+1'\ntR.", "before"),
+    _big(1_300_000, b"cos\nsystem\n(S'x'\ntR", "before"),  # truncated after a large prefix
+)
+
+
 def judge(data, scratch):
     msg, reached = observe(data, scratch)
     if msg:
@@ -415,6 +468,9 @@ def judge(data, scratch):
 
 def replay(case):
     with Scratch("c01") as scratch:
+        if "big" in case:
+            _warmup(scratch)
+            return judge(BIG_INPUTS[case["big"]], scratch)[0]
         if "archive" in case:
             _warmup(scratch)
             return judge_archive(case["archive"], [(n, bytes.fromhex(c)) for n, c in case["members"]], scratch)
@@ -574,6 +630,17 @@ def run_shard(spec, seed):
             if f is not None:
                 res.failures.append(f)
                 return res
+
+            if spec["idx"] < 2:
+                # inputs larger than any in-memory buffering threshold (1.25 MiB and 9 MiB)
+                for big in BIG_INPUTS[spec["idx"]::2]:
+                    f, reached = judge(big, scratch)
+                    res.note(None, True, klass=["big-input"] + [f"returned:{n}" for n in sorted(reached)],
+                             sample={"big": len(big), "head": big[:60].hex()})  # fmt: skip
+                    if f is not None:
+                        f.case = {"big": BIG_INPUTS.index(big)}
+                        res.failures.append(f)
+                        return res
 
             def body(case):
                 data, kind = case
